@@ -383,6 +383,10 @@ type fillCase struct {
 	// PanicFirst (hole on the value side): the value is at first one that Lit rejects, so the early
 	// renders panic (recovered, as a caller would); the caller then puts a good value into its map
 	PanicFirst bool `json:"panicfirst,omitempty"`
+	// Via: how the Dict reaches its Values group: "" Values(d), "add" Values(Add(d)), "func" ValuesFunc with
+	// g.Add(d). LateInsert: a pair that the caller puts into its map only after the early renders.
+	Via        string `json:"via,omitempty"`
+	LateInsert bool   `json:"lateinsert,omitempty"`
 }
 
 func checkFill(c fillCase) error {
@@ -426,6 +430,15 @@ func checkFill(c fillCase) error {
 				}
 			}
 		}
+		if filled && c.LateInsert {
+			d[jen.Id("LateKey")] = jen.Lit(777)
+		}
+		switch c.Via {
+		case "add":
+			return jen.Var().Id("_").Op("=").Id("T").Values(jen.Add(d)), hole
+		case "func":
+			return jen.Var().Id("_").Op("=").Id("T").ValuesFunc(func(g *jen.Group) { g.Add(d) }), hole
+		}
 		return jen.Var().Id("_").Op("=").Id("T").Values(d), hole
 	}
 	var shared *jen.File
@@ -462,6 +475,9 @@ func checkFill(c fillCase) error {
 	}
 	if grown != nil {
 		grown.Dot(c.Extend)
+	}
+	if c.LateInsert {
+		theDict[jen.Id("LateKey")] = jen.Lit(777)
 	}
 	got, err := render(st)
 	if err != nil {
@@ -691,6 +707,8 @@ func TestC16(t *testing.T) {
 			c.ExtendAt = rapid.IntRange(0, len(c.Keys)-1).Draw(rt, "extat")
 			r.Class("fill_after_render:key_extended_in_place")
 		}
+		c.Via = rapid.SampledFrom([]string{"", "", "add", "func"}).Draw(rt, "via")
+		c.LateInsert = rapid.IntRange(0, 2).Draw(rt, "lateinsert") == 0
 		r.NonTrivial(fmt.Sprintf("%+v", c))
 		r.Class("fill_after_render")
 		return c
